@@ -8,7 +8,7 @@ CANARIES = {
             "module": "mici.matrices",
             "old": "        return InverseTriangularMatrix(\n            self._inverse_array.T,\n            lower=not self.lower,",
             "new": "        return InverseTriangularMatrix(\n            self._inverse_array.T,\n            lower=self.lower,",
-            "cases": ["leaf/invtri_lower/n2/unary"], "what": "transpose of an inverse-triangular matrix keeps the wrong triangle flag",
+            "cases": ["leaf/invtri_lower/n2/T"], "what": "transpose of an inverse-triangular matrix keeps the wrong triangle flag",
         },
         "diag_left_multiply_axis": {
             "module": "mici.matrices",
